@@ -189,9 +189,10 @@ def probe_lists(t, cls):
 
 
 def work(chunk):
-    from vf.core import touch_bases
+    from vf.core import disturb_process, touch_bases
 
     t = Tally()
+    disturb_process()
     for cls in chunk:
         touch_bases(cls)
         for c in S.children(cls):
